@@ -546,6 +546,15 @@ func report(vdir, prop, tier string, seed int, results []*engine.UnitResult, t0 
 		alist = append(alist, a)
 	}
 	sort.Strings(alist)
+	// standing assumptions of the encoding (DESIGN.md S6), the same for every property
+	alist = append(alist,
+		"encoding: Go int/uint arithmetic is treated as mathematical integer arithmetic (overflow of lengths and counters is not modelled), except in lemmas marked bitvector",
+		"encoding: every function is verified as sequential code under its lock typestate; goroutine interleavings are not explored and `go` statements only leave a ghost log entry",
+		"encoding: callers are checked against callee contracts, not bodies; a contract marked trusted or extern is assumed, not verified (each one that was used is listed above)",
+		"encoding: termination is proved only for loops with a decreases clause; panics are proved absent, not modelled; defers run at function exit in reverse order",
+		"encoding: map iteration visits every key once in an arbitrary order; select picks any ready case; a receive on a channel type nothing in the repository sends on completes only after close",
+		"encoding: protobuf-internal fields and the contents of objects returned by external calls are unconstrained; no unsafe code is in the verified functions",
+	)
 	if len(samples) == 0 {
 		samples = append(samples, map[string]interface{}{"note": "no ensures/invariant obligations in this run"})
 	}
